@@ -33,9 +33,9 @@ ENCODED = [fac.make_wsgi_app, mw._CapabilitiesMiddleware.process_response, hc.ht
 BOUNDS = (
     "max_request_bytes / max_response_bytes / max_externalized_response_bytes / max_upload_bytes: any int or None "
     "and sticky_default_ttl: presence in all 16x2 combinations with fixed values, and one value at a time = any int "
-    "0..%d; flags storage, upload provider, compression on/off, sticky, echo headers, proof-required, "
-    "introspection: all 256 combinations; request method: any of 6 x success flag on two configurations; thorough "
-    "tier: the full 2048-configuration product with fixed values" % pick(10**5, 10**7)
+    "0..%d; external-location mode (none / resolve-only without storage / with storage), upload provider, compression on/off, sticky, echo headers, proof-required, "
+    "introspection: all 192 combinations; request method: any of 6 x success flag on two configurations; thorough "
+    "tier: the full 3072-configuration product with fixed values" % pick(10**5, 10**7)
 )
 OUTSIDE = (
     "interaction between the groups above in the quick tier (limits x features x method are decided group by group, "
@@ -82,6 +82,13 @@ with warnings.catch_warnings():
     warnings.simplefilter("ignore")
     _SERVER_PLAIN = RpcServer(_P, _Impl())
     _SERVER_STORAGE = RpcServer(_P, _Impl(), external_location=ExternalLocationConfig(storage=_Storage()))  # type: ignore[arg-type]
+    # external-location config used only to *resolve* externalised inputs: no storage backend, nothing can be externalised
+    _SERVER_RESOLVE_ONLY = RpcServer(_P, _Impl(), external_location=ExternalLocationConfig(storage=None))
+
+# `ext` (external-location mode) everywhere below: 0 = no external config, 1 = resolve-only config (storage=None),
+# 2 = config with a storage backend.  HttpServerCapabilities documents externalization_enabled as
+# "True iff the server has a storage backend wired up", i.e. ext == 2.
+_EXT_FULL = 2
 
 _ECHO = {"X-Shard": "a", "X-Zone": "b"}
 _METHODS = ["OPTIONS", "GET", "HEAD", "POST", "DELETE", "PUT"]
@@ -208,14 +215,15 @@ class _FakeFalcon:
 _make_wsgi_app = reglobalize(fac.make_wsgi_app, falcon=_FakeFalcon())
 
 
-def _build_app(mreq, mresp, mext, mup, ttl, storage, provider, compression, sticky, echo, proof, introspect, real: bool = False):
+def _build_app(mreq, mresp, mext, mup, ttl, storage, provider, compression, sticky, echo, proof, introspect, real: bool = False, alias: bool = False):
     with warnings.catch_warnings():
         warnings.simplefilter("ignore")
         return (fac.make_wsgi_app if real else _make_wsgi_app)(
-            _SERVER_STORAGE if storage else _SERVER_PLAIN,
+            _SERVER_STORAGE if storage == _EXT_FULL else (_SERVER_RESOLVE_ONLY if storage == 1 else _SERVER_PLAIN),
             token_key=b"k" * 32,
             max_request_bytes=mreq,
-            max_response_bytes=mresp,
+            max_response_bytes=None if alias else mresp,
+            max_stream_response_bytes=mresp if alias else None,  # deprecated spelling of the same limit
             max_externalized_response_bytes=mext,
             upload_url_provider=_UploadProvider() if provider else None,  # type: ignore[arg-type]
             max_upload_bytes=mup,
@@ -239,7 +247,7 @@ def _expected_headers(mreq, mresp, mext, mup, ttl, storage, provider, compressio
         (hcommon.MAX_REQUEST_BYTES_HEADER, None if mreq is None else str(mreq)),
         (hcommon.MAX_RESPONSE_BYTES_HEADER, None if mresp is None else str(mresp)),
         (hcommon.MAX_EXTERNALIZED_RESPONSE_BYTES_HEADER, None if mext is None else str(mext)),
-        (hcommon.EXTERNALIZATION_ENABLED_HEADER, "true" if storage else "false"),
+        (hcommon.EXTERNALIZATION_ENABLED_HEADER, "true" if storage == _EXT_FULL else "false"),
         (hcommon.UPLOAD_URL_HEADER, "true" if provider else None),
         (hcommon.MAX_UPLOAD_BYTES_HEADER, str(mup) if (provider and mup is not None) else None),
         (hcommon.SUPPORTED_ENCODINGS_HEADER, ... if compression else ""),
@@ -251,9 +259,9 @@ def _expected_headers(mreq, mresp, mext, mup, ttl, storage, provider, compressio
     ]
 
 
-def _check(mreq, mresp, mext, mup, ttl, storage, provider, compression, sticky, echo, proof, introspect, method: int, succeeded: bool) -> bool:
+def _check(mreq, mresp, mext, mup, ttl, storage, provider, compression, sticky, echo, proof, introspect, method: int, succeeded: bool, alias: bool = False) -> bool:
     cfg = (mreq, mresp, mext, mup, ttl, storage, provider, compression, sticky, echo, proof, introspect)
-    app = _build_app(*cfg)
+    app = _build_app(*cfg, alias=alias)
     cap = _find_capabilities_middleware(app)
     if cap is None:
         return False  # EXTERNALIZATION_ENABLED / SUPPORTED_ENCODINGS are always advertised, so there is always one
@@ -298,7 +306,7 @@ def _check(mreq, mresp, mext, mup, ttl, storage, provider, compression, sticky, 
         return False
     if caps.max_request_bytes != mreq or caps.max_response_bytes != mresp or caps.max_externalized_response_bytes != mext:
         return False
-    if caps.externalization_enabled != storage or caps.upload_url_support != provider:
+    if caps.externalization_enabled != (storage == _EXT_FULL) or caps.upload_url_support != provider:
         return False
     if caps.max_upload_bytes != (mup if provider else None):
         return False
@@ -322,12 +330,12 @@ def _replay_real_app(args: dict) -> str | None:
     and the real http_capabilities probe must read the configuration back."""
     from vgi_rpc.http._testing import _SyncTestClient  # noqa: PLC0415
 
-    cfg = tuple(args.get(k) for k in ("mreq", "mresp", "mext", "mup")) + (args.get("ttl", 300),) + tuple(
-        bool(args.get(k)) for k in ("storage", "provider", "compression", "sticky", "echo", "proof", "introspect")
+    cfg = tuple(args.get(k) for k in ("mreq", "mresp", "mext", "mup")) + (args.get("ttl", 300), int(args.get("storage") or 0)) + tuple(
+        bool(args.get(k)) for k in ("provider", "compression", "sticky", "echo", "proof", "introspect")
     )
     import falcon.testing
 
-    app = _build_app(*cfg, real=True)
+    app = _build_app(*cfg, real=True, alias=bool(args.get("alias")))
     tc = falcon.testing.TestClient(app)
     spec = _expected_headers(*cfg)
     probes = [("OPTIONS", "/health"), ("GET", "/health"), ("HEAD", "/health"), ("GET", "/no/such/route"), ("POST", "/ping"), ("POST", "/nope"), ("POST", "/__introspect_token__")]
@@ -340,7 +348,7 @@ def _replay_real_app(args: dict) -> str | None:
             if bad:
                 return f"{verb} {path} -> {r.status_code}: header {name} = {got!r}, configuration implies {('absent' if want is None else 'a codec list' if want is ... else repr(want))}"
     mreq, mresp, mext, mup, ttl, storage, provider, compression, sticky, echo, proof, introspect = cfg
-    want = (mreq, mresp, mext, storage, provider, mup if provider else None, sticky, ttl if sticky else None, tuple(_ECHO) if (sticky and echo) else (), compression)
+    want = (mreq, mresp, mext, storage == _EXT_FULL, provider, mup if provider else None, sticky, ttl if sticky else None, tuple(_ECHO) if (sticky and echo) else (), compression)
     # two real clients: the repo's test client (lower-cased plain dict headers) and an httpx-like one
     # (case-insensitive header lookup) fed with the real app's real OPTIONS /health response
     real_options = tc.simulate_request("OPTIONS", "/health")
@@ -364,7 +372,7 @@ def _canon(args: dict) -> dict:
     """Item arguments -> the configuration the item builds (same mapping as the condition bodies)."""
     if "rich" in args:
         if args["rich"]:
-            return dict(mreq=1000, mresp=2000, mext=3000, mup=4000, ttl=60, storage=True, provider=True, compression=True, sticky=True, echo=True, proof=True, introspect=True)
+            return dict(mreq=1000, mresp=2000, mext=3000, mup=4000, ttl=60, storage=_EXT_FULL, provider=True, compression=True, sticky=True, echo=True, proof=True, introspect=True)
         return dict(mreq=None, mresp=None, mext=None, mup=None, ttl=300, compression=False)
     out = dict(args)
     if "has_req" in args:
@@ -386,13 +394,13 @@ _SIG = lambda args, conc: "C40:capability-headers-differ-from-configuration"  # 
 
 
 @cond(q=60, t=300, stubs=_STUBS, encoded=ENCODED, replay=_replay_item, signature=_SIG,
-      bound="which of the four byte limits are configured (16 combinations) x upload provider on/off; configured values fixed and distinct")
-def limit_headers_present_iff_configured(has_req: bool, has_resp: bool, has_ext: bool, has_up: bool, provider: bool) -> bool:
+      bound="which of the four byte limits are configured (16 combinations) x upload provider on/off x response cap passed as max_response_bytes or its deprecated alias; configured values fixed and distinct")
+def limit_headers_present_iff_configured(has_req: bool, has_resp: bool, has_ext: bool, has_up: bool, provider: bool, alias: bool) -> bool:
     """
     post: _
     """
     return _check(1001 if has_req else None, 2002 if has_resp else None, 3003 if has_ext else None, 4004 if has_up else None,
-                  300, False, provider, True, False, False, False, False, 0, True)  # fmt: skip
+                  300, 0, provider, True, False, False, False, False, 0, True, alias=alias)  # fmt: skip
 
 
 _NMAX = pick(10**5, 10**7)
@@ -411,16 +419,17 @@ def each_numeric_value_rendered_and_read_back(which: int, n: int) -> bool:
     post: _
     """
     a = _args_one_value(which, n)
-    return _check(a["mreq"], a["mresp"], a["mext"], a["mup"], a["ttl"], False, a["provider"], True, a["sticky"], False, False, False, 0, True)
+    return _check(a["mreq"], a["mresp"], a["mext"], a["mup"], a["ttl"], 0, a["provider"], True, a["sticky"], False, False, False, 0, True)
 
 
 @cond(q=60, t=300, stubs=_STUBS, encoded=ENCODED, replay=_replay_item, signature=_SIG,
-      bound="storage, upload provider (with/without max_upload_bytes), compression, sticky, echo headers, proof-required, introspection: all 256 combinations; other limits unset; ttl fixed")
-def features_advertised_and_read_back(storage: bool, provider: bool, has_up: bool, compression: bool, sticky: bool, echo: bool, proof: bool, introspect: bool) -> bool:
+      bound="external-location mode {none, resolve-only config without storage, config with storage} x upload provider x compression x sticky x echo headers x proof-required x introspection: all 192 combinations; limits unset; ttl fixed")
+def features_advertised_and_read_back(storage: int, provider: bool, compression: bool, sticky: bool, echo: bool, proof: bool, introspect: bool) -> bool:
     """
+    pre: 0 <= storage <= 2
     post: _
     """
-    return _check(None, None, None, 4004 if has_up else None, 300, storage, provider, compression, sticky, echo, proof, introspect, 0, True)
+    return _check(None, None, None, None, 300, storage, provider, compression, sticky, echo, proof, introspect, 0, True)
 
 
 @cond(q=60, t=300, stubs=_STUBS, encoded=ENCODED, replay=_replay_item, signature=_SIG,
@@ -431,15 +440,16 @@ def every_response_carries_all_headers(method: int, succeeded: bool, rich: bool)
     post: _
     """
     if rich:
-        return _check(1000, 2000, 3000, 4000, 60, True, True, True, True, True, True, True, method, succeeded)
-    return _check(None, None, None, None, 300, False, False, False, False, False, False, False, method, succeeded)
+        return _check(1000, 2000, 3000, 4000, 60, _EXT_FULL, True, True, True, True, True, True, method, succeeded)
+    return _check(None, None, None, None, 300, 0, False, False, False, False, False, False, method, succeeded)
 
 
 @cond(q=600, t=1800, tiers=("thorough",), stubs=_STUBS, encoded=ENCODED, replay=_replay_item, signature=_SIG,
-      bound="full product: which limits are configured (16) x upload provider x storage x compression x sticky x echo x proof x introspection (2048 configurations), fixed values")
-def capability_headers_equal_configuration(has_req: bool, has_resp: bool, has_ext: bool, has_up: bool, storage: bool, provider: bool, compression: bool,
+      bound="full product: which limits are configured (16) x upload provider x external-location mode (3) x compression x sticky x echo x proof x introspection (3072 configurations), fixed values")
+def capability_headers_equal_configuration(has_req: bool, has_resp: bool, has_ext: bool, has_up: bool, storage: int, provider: bool, compression: bool,
                                            sticky: bool, echo: bool, proof: bool, introspect: bool) -> bool:  # fmt: skip
     """
+    pre: 0 <= storage <= 2
     post: _
     """
     return _check(1001 if has_req else None, 2002 if has_resp else None, 3003 if has_ext else None, 4004 if has_up else None,
